@@ -1,15 +1,45 @@
 package main
 
 import (
+	"os"
+
 	"verifharness/props/c20"
+	"verifharness/props/live"
 	"verifharness/vh"
 )
 
 func main() {
-	// In a child process (env VERIF_C20_CHILD) this runs the requested batch and exits.
-	// It must stay the first statement of main.
+	// In a child process (env VERIF_C20_CHILD / LIVE_LEG) this runs the requested batch or
+	// live leg and exits. It must stay the first statement of main.
 	c20.ChildMain()
+	if os.Getenv("LIVE_LEG") != "" {
+		os.Exit(live.ChildMain())
+	}
 	run := vh.Start("C20")
+	// the live legs (6 child processes) run alongside the deterministic part (vh.Run is thread-safe)
+	done := make(chan struct{})
+	go func() { defer close(done); live.RunLegs(run, "c20", c20LiveSpecs(run)) }()
 	c20.RunD1(run)
+	<-done
 	run.Finish()
+}
+
+// c20LiveSpecs: concurrent JSON-RPC stack under seeded hook-point schedules (engine E6):
+// event bus, filter system / filter API, websocket server; race build and plain build.
+func c20LiveSpecs(run *vh.Run) []live.LegSpec {
+	q := !run.Thorough()
+	n := func(a, b int) int {
+		if q {
+			return a
+		}
+		return b
+	}
+	return []live.LegSpec{
+		{Leg: "pubsub", Bin: "race", Trials: n(60, 600), Aggro: 2, Procs: n(1, 4)},
+		{Leg: "pubsub", Bin: "plain", Trials: n(150, 1500), Aggro: 3, Procs: n(1, 3)},
+		{Leg: "filters", Bin: "race", Trials: n(12, 250), Aggro: 2, Procs: n(1, 4)},
+		{Leg: "filters", Bin: "plain", Trials: n(30, 600), Aggro: 3, Procs: n(1, 3)},
+		{Leg: "websocket", Bin: "race", Trials: n(15, 150), Aggro: 2, Procs: n(1, 4)},
+		{Leg: "websocket", Bin: "plain", Trials: n(40, 400), Aggro: 3, Procs: n(1, 3)},
+	}
 }
